@@ -18,6 +18,19 @@ func dup(a int) int {
 	return a + 3300
 }
 
+// dupS: an unexported struct type whose name (and method name) also exists in fn and fn2
+type dupS struct{ Tag int }
+
+//go:noinline
+func (p *dupS) Get(a int) int {
+	if a < -10000 {
+		fmt.Println("never")
+	}
+	return a + 3350 + p.Tag
+}
+
+var dupInst = &dupS{}
+
 // pkgWorld binds spec/Pkg.tla: "cur" = this package, "fn", "fn2".
 type pkgWorld struct{ b map[string]*mocker.Builder }
 
@@ -43,7 +56,12 @@ func (w *pkgWorld) Do(st Step) string {
 			b.Pkg(map[string]string{"fn": fn.Pkg, "fn2": fn2.Pkg}[st.Str("p")])
 		case "MockDup":
 			base := 10000 + 100*st.Int("id")
-			b.ExportFunc("dup").Apply(func(a int) int { return base + a })
+			if st.Str("k") == "method" {
+				// (the receiver type differs per package: a pointer is a pointer)
+				b.ExportStruct("*dupS").Method("Get").Apply(func(_ *dupS, a int) int { return base + a })
+			} else {
+				b.ExportFunc("dup").Apply(func(a int) int { return base + a })
+			}
 		case "LookupOther":
 			b.Func(fn.F)
 		case "Reset":
@@ -56,6 +74,22 @@ func (w *pkgWorld) Observe(st Step) map[string]string {
 	exp, _ := st["exp"].(map[string]interface{})
 	calls := map[string]func(int) int{"cur": dup, "fn": fn.CallDup, "fn2": fn2.CallDup}
 	orig := map[string]int{"cur": 3300, "fn": 1100, "fn2": 2200}
+	expm, _ := st["expm"].(map[string]interface{})
+	callsM := map[string]func(int) int{"cur": dupInst.Get, "fn": fn.CallDupM, "fn2": fn2.CallDupM}
+	origM := map[string]int{"cur": 3350, "fn": 1150, "fn2": 2250}
+	for p, want := range expm {
+		r := callsM[p](7)
+		got := fmt.Sprintf("?%d", r)
+		if r == origM[p]+7 {
+			got = "orig"
+		} else if r >= 10000 && (r-10000)%100 == 7 {
+			got = fmt.Sprintf("repl:%d", (r-10000)/100)
+		}
+		if got != fmt.Sprint(want) {
+			out["!dup"] = fmt.Sprintf("(*dupS).Get of package %s: required %v, real %s", p, want, got)
+			return out
+		}
+	}
 	for p, want := range exp {
 		r := calls[p](7)
 		got := fmt.Sprintf("?%d", r)
